@@ -17,6 +17,7 @@ Operations (lists, so that cases shrink and replay as plain JSON):
   ['crash', side] ['restart', side]
   ['kfault', side, nth, errno]            the nth netlink request from now is refused with errno
   ['sfault', side, nth, kind]             the nth sendto from now raises OSError / gaierror
+  ['unreachable', side, other, on]        every sendto of `side` towards `other` fails with ENETUNREACH (until switched off)
   ['inject', side, src, hex]              raw datagram from src ('peer' | 'unknown' | address) to `side`
   ['xfrm_raw', side, hex]                 raw bytes on the XFRM socket
   ['auto', seconds, dt, policy]           run by itself: ticks of dt, everything delivered FIFO; policy 'none' | 'blackhole' |
@@ -261,6 +262,10 @@ class Sim:
                    'gai': _socket.gaierror(-2, 'Name or service not known'),
                    'msgsize': OSError(_errno.EMSGSIZE, 'Message too long')}[op[3]]
             ep.send_faults[ep.send_calls + op[2]] = exc
+        elif k == 'unreachable':
+            ep = self.eps[op[1]]
+            for a_ in self.eps[op[2]].addrs:
+                (ep.unreachable.add if op[3] else ep.unreachable.discard)(a_)
         elif k == 'inject':
             ep = self.eps[op[1]]
             if not ep.up:
